@@ -24,7 +24,7 @@ pub fn opts_from_json(o: &Value) -> Opts {
         ii: cps_to_string(&o["ii"]),
         si: cps_to_string(&o["si"]),
         bw: o["bw"].as_bool().unwrap_or(true),
-        sep: if o["sep"] == "uax" { Sep::Uax } else { Sep::Ascii },
+        sep: if o["sep"] == "uax" { Sep::Uax } else if o["sep"] == "custom" { Sep::Custom } else { Sep::Ascii },
         splitter: match o["splitter"].as_str().unwrap_or("none") {
             "hyphen" => Splitter::Hyphen,
             "every2" => Splitter::Every2,
@@ -37,7 +37,7 @@ pub fn opts_from_json(o: &Value) -> Opts {
 }
 
 fn supported(o: &Opts) -> bool {
-    FULL || (o.sep == Sep::Ascii && o.alg == Alg::FF)
+    FULL || (o.sep != Sep::Uax && o.alg == Alg::FF)
 }
 
 /// Execute one input record (from a TLC REPLAY line, or the input part of a recorded event).
@@ -69,8 +69,28 @@ pub fn run_input(ch: &mut Chunker, v: &Value) {
         "break" => rec_break(ch, &cps_to_string(&v["s"]), alpha_inv(v["lim"].as_i64().unwrap()), v["kind"] == "apart"),
         "wrap" => {
             let o = opts_from_json(&v["o"]);
-            if supported(&o) {
-                rec_wrap(ch, &cps_to_string(&v["text"]), &o, "replay");
+            let text = cps_to_string(&v["text"]);
+            if o.sep == Sep::Custom {
+                // cuts: per paragraph, 1-based character positions of word starts; identical paragraphs must agree
+                let paras = split_ending(&text, o.crlf);
+                let mut map: std::collections::HashMap<String, Vec<usize>> = Default::default();
+                let mut consistent = true;
+                for (k, p) in paras.iter().enumerate() {
+                    let cuts: Vec<usize> = v["cuts"][k].as_array().map(|a| a.iter().filter_map(|c| c.as_u64()).map(|c| {
+                        p.char_indices().nth(c as usize - 1).map(|(b, _)| b).unwrap_or(p.len())
+                    }).collect()).unwrap_or_default();
+                    if let Some(old) = map.get(*p) {
+                        consistent &= *old == cuts;
+                    }
+                    map.insert(p.to_string(), cuts);
+                }
+                if consistent {
+                    CUTMAP.with(|m| *m.borrow_mut() = map);
+                    rec_wrap(ch, &text, &o, "custom");
+                    CUTMAP.with(|m| m.borrow_mut().clear());
+                }
+            } else if supported(&o) {
+                rec_wrap(ch, &text, &o, "replay");
             }
         }
         "fill" => {
